@@ -51,7 +51,13 @@ const ZOO = [
   ['sequence-in-substitution', 'let n = 0; return `${n++, n++, n}${(n++, w.s1)}` + n'],
   ['directive-like-strings', "'not a directive'.length; return (function () { 'use strict'; 'second'; return this === undefined })() + w.s1"],
   ['import-meta-dynamic-import', 'const u = typeof import.meta.url; const lazy = () => import(`node:${"fs"}` + w.s2); return u + typeof lazy + w.s1', { module: true }],
-  ['top-level-await-export-forms', 'export const a = await Promise.resolve(w.s1 + 1); export function f() { return a + w.s2 } export default class { m() { return f() } }; export { a as b, f as "string name" }', { module: true, raw: true }]
+  ['top-level-await-export-forms', 'export const a = await Promise.resolve(w.s1 + 1); export function f() { return a + w.s2 } export default class { m() { return f() } }; export { a as b, f as "string name" }', { module: true, raw: true }],
+  // one expression with well over a hundred enclosing operations: long concatenations (generated HTML, SQL, templating code)
+  // and long call chains are ordinary; every operand and every link must still be instrumented
+  ['long-plus-chain-140', 'return ' + Array.from({ length: 140 }, (_, k) => k % 7 === 3 ? `'l${k}'` : k % 5 === 1 ? `w.f${k}()` : k % 11 === 6 ? `w.s${k}.trim()` : `w.s${k}`).join(' + ')],
+  ['long-plus-chain-300-idents', 'const v = w.s1, u = w.s2; let acc = w.s3; acc += ' + Array.from({ length: 300 }, (_, k) => k % 2 ? 'v' : 'u').join(' + ') + '; return acc'],
+  ['long-method-chain-135', 'return w.s1' + Array.from({ length: 135 }, (_, k) => k % 9 === 4 ? `.concat(w.s${k})` : k % 2 ? '.trim()' : '.toString()').join('')],
+  ['long-nested-templates-40', 'return ' + Array.from({ length: 40 }, (_, k) => k).reduce((acc, k) => '`' + k + '${' + acc + '}${w.s' + k + '}`', 'w.s99')]
 ]
 
 function build (entry) {
